@@ -391,6 +391,12 @@ func (vs *ValueSet) FromSignature(values []reflect.Value) error {
 		values = []reflect.Value{structOut}
 	}
 
+	// If we have no values at all then our signature is empty (see Signature)
+	// and there is nothing to load.
+	if vs.structType == nil {
+		return nil
+	}
+
 	// Get our first result which should be our struct
 	structVal := values[0]
 	for i, v := range vs.values {
